@@ -108,6 +108,40 @@ def rule_job(job):
     return meta, events, stats
 
 
+def pop_job(job):
+    date, seed, tid = job
+    import pandas as pd
+
+    import popgen
+    import runs
+
+    rnd = random.Random(seed)
+    names = list(popgen.CANON)
+    PA = popgen.compose([popgen.CANON[rnd.choice(names)] for _ in range(2)], date, rnd)
+    PB = popgen.compose([popgen.CANON[rnd.choice(names)] for _ in range(3)], date, rnd)
+    for p in PB:
+        p["p_id"] += 500
+        p["hh_id"] += 40
+        for c in ("p_id_elternteil_1", "p_id_elternteil_2", "p_id_kindergeld_empf", "p_id_erziehgeld_empf", "p_id_ehepartner", "p_id_einstandspartner", "p_id_betreuungsk_träger"):
+            if p.get(c, -1) >= 0:
+                p[c] += 500
+    A, B = gs.build_population(PA, date), gs.build_population(PB, date)
+    nodes, _ = runs.nonderived_nodes(date, A)
+    try:
+        ra, _ = gs.compute_all(A, date, targets=nodes, rounding=False)
+        cols = list(ra.columns)
+        rb = gs.compute(pd.concat([B, A], ignore_index=True), date, targets=cols, rounding=False)
+        rc = gs.compute(A.iloc[::-1].reset_index(drop=True), date, targets=cols, rounding=False)
+    except Exception:  # noqa: BLE001
+        return []
+    k = {"f": "f", "i": "i", "u": "i", "b": "b"}
+    out = []
+    for c in cols:
+        for tag, r in (("A", ra), ("B+A", rb), ("reversed", rc)):
+            out.append({"fn": f"{tid}:{c}", "declared": "?", "order": tag, "scalar": [], "column": [], "dtype": k.get(r[c].dtype.kind, r[c].dtype.kind), "date": date})
+    return out
+
+
 def run(tier):
     from _gettsim.functions_loader import load_internal_functions
 
@@ -142,6 +176,12 @@ def run(tier):
             chk.distinct(meta["fn"])
         if stats.get("api_errors"):
             chk.notes.setdefault("api_errors", []).append(f"{meta['fn']}: {stats['api_errors'][0]}")
+    # population level: the dtype of every column of a simulation must not change when unrelated households are
+    # put in front of the table (the storage type must not depend on what other rows contain)
+    pop_events = [e for evs in pool_map(pop_job, [(d, rnd.randrange(1 << 30), t) for t, d in enumerate(["2023-01-01", "2019-07-01", "2016-01-01"] * (2 if quick else 12))]) for e in evs]
+    for e in pop_events:
+        events.append(e)
+        owner.append(({"fn": e["fn"].split(":", 1)[1], "node": e["fn"].split(":", 1)[1], "date": e.pop("date")}, {"rows": 0}))
     chk.count(len(events))
     tf, of = chk.work / "rows.json", chk.work / "rows.out.json"
     tlc.write_json(tf, events)
